@@ -187,6 +187,60 @@ func factsC18() {
 	addStrList("c18OAuthPrecedenceAssigns", assigns, "backend.go buildBackendOAuth: assignments inside the precedence branch")
 	addStrList("c18OAuthDenyAssigns", c18FieldAssigns(back, oa, "AlwaysDeny"), "backend.go buildBackendOAuth: assignments to AlwaysDeny, source order")
 
+	// ---- findBackend: the comparison that decides which published path is the oauth2-proxy, the order
+	// in which the hosts and their paths are visited, and where buildBackendOAuth takes the prefix from
+	fb := methodDecl(back, "updater", "findBackend")
+	var fbConds, fbReturns []string
+	ast.Inspect(fb.Body, func(n ast.Node) bool {
+		switch x := n.(type) {
+		case *ast.IfStmt:
+			fbConds = append(fbConds, c18Src(back, x.Cond))
+		case *ast.ReturnStmt:
+			fbReturns = append(fbReturns, c18Src(back, x))
+		}
+		return true
+	})
+	addStrList("c18FindBackendConds", fbConds, "backend.go findBackend: conditions of the if statements (the test of the inner loop)")
+	addStrList("c18FindBackendReturns", fbReturns, "backend.go findBackend: return statements, source order")
+	addStrList("c18FindBackendRanges", c18Ranges(back, fb), "backend.go findBackend: what the loops range over")
+	var fbSort []string
+	ast.Inspect(fb.Body, func(n ast.Node) bool {
+		if c, ok := n.(*ast.CallExpr); ok {
+			if s, ok := c.Fun.(*ast.SelectorExpr); ok {
+				if x, ok := s.X.(*ast.Ident); ok && x.Name == "sort" {
+					fbSort = append(fbSort, c18Src(back, c))
+				}
+			}
+		}
+		return true
+	})
+	addStrList("c18FindBackendSort", fbSort, "backend.go findBackend: calls into package sort (the hostnames are visited in sorted order)")
+	hostTypes := "pkg/haproxy/types/host.go"
+	addStrList("c18HostAddLinkCmps", c18CmpsNoNil(hostTypes, methodDecl(hostTypes, "Host", "addLink")), "host.go Host.addLink: comparisons of the sort that keeps Host.Paths ordered (path descending, ties by registration order)")
+	var pfxAssigns, pfxConds, pathAssigns []string
+	ast.Inspect(oa.Body, func(n ast.Node) bool {
+		switch x := n.(type) {
+		case *ast.AssignStmt:
+			if len(x.Lhs) == 1 && len(x.Rhs) == 1 {
+				l := c18Src(back, x.Lhs[0])
+				if l == "uriPrefix" || l == "namespace" || l == "backend" {
+					pfxAssigns = append(pfxAssigns, l+" "+x.Tok.String()+" "+c18Src(back, x.Rhs[0]))
+				}
+				if l == "path.AuthExternal.AuthBackendName" || l == "path.AuthExternal.AllowedPath" || l == "path.AuthExternal.AuthPath" {
+					pathAssigns = append(pathAssigns, l+" "+x.Tok.String()+" "+c18Src(back, x.Rhs[0]))
+				}
+			}
+		case *ast.IfStmt:
+			if strings.Contains(c18Src(back, x.Cond), "prefix.") {
+				pfxConds = append(pfxConds, c18Src(back, x.Cond))
+			}
+		}
+		return true
+	})
+	addStrList("c18OAuthPrefixAssigns", pfxAssigns, "backend.go buildBackendOAuth: assignments to uriPrefix, namespace and backend, source order")
+	addStrList("c18OAuthPrefixConds", pfxConds, "backend.go buildBackendOAuth: when oauth-uri-prefix replaces the default")
+	addStrList("c18OAuthPathAssigns", pathAssigns, "backend.go buildBackendOAuth: the backend, the exemption and the auth path written on the record")
+
 	// ---- UpdateHostConfig before UpdateBackendConfig; auth-url before oauth
 	upd := "pkg/converters/ingress/annotations/updater.go"
 	var builders []string
@@ -340,6 +394,18 @@ func c18Cmps(rel string, fd *ast.FuncDecl) []string {
 		}
 		return true
 	})
+	return res
+}
+
+// c18CmpsNoNil: c18Cmps without the nil / empty-string guards
+func c18CmpsNoNil(rel string, fd *ast.FuncDecl) []string {
+	var res []string
+	for _, c := range c18Cmps(rel, fd) {
+		if strings.HasSuffix(c, "!= nil") || strings.HasSuffix(c, `== ""`) {
+			continue
+		}
+		res = append(res, c)
+	}
 	return res
 }
 
